@@ -10,7 +10,7 @@ from .. import core, ctx as _ctx, histmon as HM, model as _model, addrgen as AG,
 PROP = "C13"
 
 
-def w_hist(exe, pool, programs, extra, src):
+def w_hist(exe, pool, programs, extra, src, cold=None):
     part = HM.new_part()
     mdl = _model.Model()
     ref = HM.failed_setup_reference(exe)
@@ -22,7 +22,7 @@ def w_hist(exe, pool, programs, extra, src):
     for prog, tr in zip(programs, traces):
         if tr is None:
             continue
-        HM.check_trace(prog, tr, mdl, part, extra=extra, src=src, setup_ref=ref)
+        HM.check_trace(prog, tr, mdl, part, extra=extra, src=src, setup_ref=ref, cold=cold)
         n += 1
     part["distinct"] = len(programs)
     part["counters"][src + ".histories"] += n
@@ -100,8 +100,10 @@ def main(tier, seed):
             for seq in itertools.product(ops, repeat=4):
                 if any(o[0] == "e" for o in seq):
                     progs.append([r, "s"] + list(seq))
+    masks = [mdl.default_allow, 0, mdl.all_bits, mdl.default_allow & ~mdl.class_bit("SPECIAL")]
+    cold = HM.cold_reference(cx.exe("asan"), HM.POOL7, masks)
     for i in range(0, len(progs), 6000):
-        jobs.append((w_hist, (variants[0][1], HM.POOL7, progs[i:i + 6000], False, "exhaustive")))
+        jobs.append((w_hist, (variants[0][1], HM.POOL7, progs[i:i + 6000], False, "exhaustive", cold)))
     # the EAV_EXTRA build gets a strided sample of the exhaustive set
     sub = progs[seed % 7::7]
     for i in range(0, len(sub), 6000):
